@@ -613,16 +613,24 @@ def make_integrator(model: Model, ispec: dict):
         kw = {}
         if "reverse_check_tol" in ispec:
             kw["reverse_check_tol"] = ispec["reverse_check_tol"]
+        skw = dict(ispec.get("solver_kwargs", {}))
+        if ispec.get("norm") == "euclid":
+            kw["reverse_check_norm"] = mici.solvers.euclidean_norm
+            skw["norm"] = mici.solvers.euclidean_norm
         return cls(sysm, eps, fixed_point_solver=fps[ispec.get("solver", "direct")],
-                   fixed_point_solver_kwargs=dict(ispec.get("solver_kwargs", {})), **kw)
+                   fixed_point_solver_kwargs=skw, **kw)
     if kind == "constrained":
         kw = {}
         if "reverse_check_tol" in ispec:
             kw["reverse_check_tol"] = ispec["reverse_check_tol"]
+        skw = dict(ispec.get("solver_kwargs", {}))
+        if ispec.get("norm") == "euclid":
+            kw["reverse_check_norm"] = mici.solvers.euclidean_norm
+            skw["norm"] = mici.solvers.euclidean_norm
         return mici.integrators.ConstrainedLeapfrogIntegrator(
             sysm, eps, n_inner_step=int(ispec.get("n_inner_step", 1)),
             projection_solver=prs[ispec.get("solver", "newton")],
-            projection_solver_kwargs=dict(ispec.get("solver_kwargs", {})), **kw)
+            projection_solver_kwargs=skw, **kw)
     raise ValueError(kind)
 
 
